@@ -78,7 +78,12 @@ CONFUSERS = ["Capture(AnyFrom('(', '[')) + OneOrMore(AnyDigit()) + Capture(AnyFr
              "Either('a', Capture('b')) + Either(Capture('c'), 'd')", "Capture(AnyFrom('|', '(')) + Capture(AnyFrom('|', ')'))",
              # explicit groups whose content contains further (automatic or explicit, flagged or named) groups
              "Group(Either('a', 'b') + 'c')", "Group(Group('a') + Optional(Group('b')))", "Group('a' + Group(Either('b', 'c'), True))",
-             "Group(Optional('ab') + Capture('c', 'n'))", "Capture(Group(Either('a', 'b')) + Group('c', True), 'n')", "Group(Either('a', 'b') + 'c', True)"]
+             "Group(Optional('ab') + Capture('c', 'n'))", "Capture(Group(Either('a', 'b')) + Group('c', True), 'n')", "Group(Either('a', 'b') + 'c', True)",
+             # an alternation whose first / last branch already carries the anchor or lookaround that an outer operation adds again
+             "Either(MatchAtStart('a'), 'b')", "Either('b', MatchAtEnd('a'))", "Either(MatchAtLineStart('a'), 'b')", "Either('b', MatchAtLineEnd('a'))", "Either(FollowedBy('a', 'c'), 'b')",
+             "Either(PrecededBy('a', 'c'), 'b')", "Either('b', NotFollowedBy('a', 'c'))",
+             # a numeric reference right after a literal backslash / at the end of a longer operand (junction with a following digit)
+             "Pregex('\\\\') + Backreference(1)", "Capture('a') + Pregex(':\\\\') + Backreference(1)", "Capture('a') + Backreference(1)", "Backreference(1) + Backreference(2)"]
 
 
 def confuser_atoms():
